@@ -360,6 +360,90 @@ def check_equal_params():
     return out
 
 
+def check_special_types():
+    """Task types with class-level non-parameters (ClassVar), a derived task type adding a parameter,
+    a post_init that canonicalises a parameter, and tasks built from a collection object that is
+    changed between constructions."""
+    out = []
+
+    def bad(key, msg):
+        out.append((key, msg, 2))
+
+    # ClassVar attributes are not parameters
+    for pv in (1, [1, {'k': A.Leaf(2)}]):
+        try:
+            t = A.CVFoo(p=pv)
+        except BaseException as e:  # noqa
+            bad('supported-rejected', f'CVFoo(p={pv!r}) (type with ClassVar attributes) raised {type(e).__name__}: {e}')
+            continue
+        for name in ('REGISTRY', 'GRID', 'BASELINE'):
+            if name in vars(t) or getattr(t, name) is not getattr(A.CVFoo, name):
+                bad('classvar-touched', f'CVFoo(p={pv!r}).{name} is no longer the class attribute')
+        if not isinstance(A.CVFoo.GRID, list) or not isinstance(A.CVFoo.REGISTRY, set):
+            bad('classvar-touched', 'class attributes of CVFoo were converted')
+        ref = [canon(x) for x in find_tasks(t.p)]
+        for what, obj in (('task', t), ('copy', pickle.loads(pickle.dumps(t)))):
+            try:
+                got = [canon(x) for x in get_direct_dependencies(obj)]
+            except BaseException as e:  # noqa
+                got = f'{type(e).__name__}: {e}'
+            if got != ref:
+                bad('deps-differ' if what == 'task' else 'copy-deps', f'dependencies of the {what} CVFoo(p={pv!r}) are {got}, reference {ref}')
+            if not (obj == A.CVFoo(p=pv)) or hash(obj) != hash(A.CVFoo(p=pv)) or obj.cache_key != t.cache_key:
+                bad('copy-unequal', f'{what} CVFoo(p={pv!r}) is not equal (hash, key) to a task built from equal parameters')
+    # a derived task type with an added parameter
+    for r1 in (0, 1, [A.Leaf(3)]):
+        for r2 in (0, 1, [A.Leaf(3)], [A.Leaf(4)]):
+            a, b = A.SubFoo(p=1, r=r1), A.SubFoo(p=1, r=r2)
+            same = canon(a) == canon(b)
+            if (a == b) != same or (same and hash(a) != hash(b)):
+                bad('spelling-unequal' if same else 'distinct-equal', f'SubFoo(p=1, r={r1!r}) vs SubFoo(p=1, r={r2!r}): == is {a == b}')
+        a = A.SubFoo(p=[A.Leaf(1)], q=2, r=r1)
+        if a == A.Foo(p=[A.Leaf(1)], q=2) or A.Foo(p=[A.Leaf(1)], q=2) == a:
+            bad('cross-type-equal', f'{a!r} equals the Foo task with the inherited parameters')
+        ref = [canon(x) for x in find_tasks([a.p, a.q, a.r])]
+        for proto in (2, 5):
+            c = pickle.loads(pickle.dumps(a, protocol=proto))
+            if not (c == a) or hash(c) != hash(a) or c.cache_key != a.cache_key or canon(c) != canon(a):
+                bad('copy-unequal', f'protocol {proto}: copy of {a!r} is not an equal task with the same key')
+            if [canon(x) for x in get_direct_dependencies(c)] != ref or [canon(x) for x in get_direct_dependencies(a)] != ref:
+                bad('copy-deps', f'protocol {proto}: dependencies of {a!r} / its copy differ from {ref}')
+            for path, col in walk_collections(c.r, 'r'):
+                if not isinstance(col, (tuple, frozendict)):
+                    bad('copy-not-normalised', f'protocol {proto}: {path} of SubFoo copy is a {type(col).__name__}')
+    # equal tasks have equal hashes, whatever post_init did to the parameters
+    group = [A.NFoo(p=v) for v in ('abc', 'ABC', ' abc ', 'Abc')]
+    group += [pickle.loads(pickle.dumps(x)) for x in group]
+    for x in group:
+        for y in group:
+            if x == y and (hash(x) != hash(y) or y not in {x} or len({x: 1, y: 2}) != 1):
+                bad('equal-but-hash-differs', f'{x!r} == {y!r} but they hash differently (both went through the type\'s post_init)')
+    # a collection object that is changed between two constructions
+    lst = [1]
+    a = A.Foo(p=lst)
+    lst.append(2)
+    b = A.Foo(p=lst)
+    if a.p != (1,) or b.p != (1, 2) or not (b == A.Foo(p=[1, 2])) or hash(b) != hash(A.Foo(p=[1, 2])) or b.cache_key != A.Foo(p=[1, 2]).cache_key or a == b:
+        bad('stale-collection', f'Foo built from a list, list appended to, Foo built again: first has p={a.p!r}, second p={b.p!r}')
+    dd = {'k': [A.Leaf(1)], 'j': {'x': 1}}
+    a = A.Foo(p=dd)
+    dd['k'].append(A.Leaf(2))
+    dd['j']['y'] = 2
+    b = A.Foo(p=dd)
+    want = A.Foo(p={'k': [A.Leaf(1), A.Leaf(2)], 'j': {'x': 1, 'y': 2}})
+    if not (b == want) or b.cache_key != want.cache_key or [canon(x) for x in get_direct_dependencies(b)] != [canon(x) for x in get_direct_dependencies(want)] or a == b:
+        bad('stale-collection', f'Foo built from a dict whose nested collections were extended afterwards: second task has p={b.p!r}')
+    dd['k'].append(Opaque())
+    try:
+        A.Foo(p=dd)
+        bad('unsupported-accepted:object', 'an unsupported value appended to a list already used for an earlier task was accepted')
+    except TaskError:
+        pass
+    except BaseException as e:  # noqa
+        bad('unsupported-wrong-exception:object', f'{type(e).__name__}: {e}')
+    return out
+
+
 def _work(item):
     silence_labtech()
     kind, batch = item
@@ -407,7 +491,7 @@ def run(tier: str, seed: int) -> Result:
     for kind, n, res in pmap(_work, work):
         for key, msg, size in res:
             viols.append(Violation('C15', key, msg, {'tier': tier, 'clause': key, 'msg': msg}, size=size))
-    for key, msg, size in check_equal_params():
+    for key, msg, size in check_equal_params() + check_special_types():
         viols.append(Violation('C15', key, msg, {'tier': tier, 'clause': key, 'msg': msg}, size=size))
     # cross-interpreter slice: pickled in a fresh interpreter under one hash seed, loaded under another
     import os, subprocess, sys, tempfile, shutil
